@@ -132,15 +132,29 @@ def build(S):
         calls = [n for n in ast.walk(fn) if isinstance(n, ast.Call) and ast.unparse(n.func).split('.')[-1] == 'find_pattern_in_structure']
         if len(calls) != 1:
             raise OutOfSubset("expected exactly one call of find_pattern_in_structure in %s (contract no longer applies)" % FN)
-        kws = {k.arg: ast.unparse(k.value) for k in calls[0].keywords if k.arg}
+        from contracts import frames
+        kws = {k.arg: k.value for k in calls[0].keywords if k.arg}
         if any(o not in kws for o in ('atol', 'axisp1_idx', 'axisp2_idx', 'opoint_idx')):
             raise OutOfSubset("the options are not passed to find_pattern_in_structure by keyword (contract no longer applies)")
-        passed = all(kws[o] in (o, 'float(%s)' % o) for o in ('atol', 'axisp1_idx', 'axisp2_idx', 'opoint_idx'))
+        def resolve(node, o):
+            # a local name that is assigned exactly once in the function stands for the expression it was assigned
+            k = frames.classify(node, o)
+            if k == 'unknown' and isinstance(node, ast.Name):
+                defs = [a for a in ast.walk(fn) if isinstance(a, ast.Assign) and len(a.targets) == 1 and isinstance(a.targets[0], ast.Name) and a.targets[0].id == node.id]
+                if len(defs) == 1:
+                    return frames.classify(defs[0].value, o)
+            return k
+        kinds = [resolve(kws[o], o) for o in ('atol', 'axisp1_idx', 'axisp2_idx', 'opoint_idx')]
+        if 'changed' not in kinds and 'unknown' in kinds:
+            raise OutOfSubset("an option is passed to the search through an expression the contract cannot read")
+        passed = 'changed' not in kinds
         S.add(I, "replace/options/search-uses-the-callers-tolerance-and-hints", [], z3.BoolVal(passed and all(o in params for o in ('atol', 'axisp1_idx', 'axisp2_idx', 'opoint_idx'))),
               clause='replaced occurrences are those found with the same options')
         watched = ('atol', 'axisp1_idx', 'axisp2_idx', 'opoint_idx', 'replace_fraction', 'replace_all')
-        rebound = sorted({n.id for n in ast.walk(fn) if isinstance(n, ast.Name) and isinstance(n.ctx, (ast.Store, ast.Del)) and n.id in watched})
-        S.add(I, "replace/options/option-parameters-are-never-rebound", [], z3.BoolVal(not rebound), clause='replaced occurrences are those found with the same options')
+        vs = [frames.verdict(frames.rebindings(fn, w)) for w in watched]
+        if 'changed' not in vs and 'unknown' in vs:
+            raise OutOfSubset("an option parameter is rebound to something the contract cannot read")
+        S.add(I, "replace/options/option-parameters-are-never-rebound", [], z3.BoolVal('changed' not in vs), clause='replaced occurrences are those found with the same options')
     S.guarded('options of the search', options)
     prove_frame(S)
     S.clause('number of replaced matches = round(f*M), reported count equals it, only found matches, none twice', 'PROVED (block contract)')
